@@ -347,6 +347,15 @@ func runC07(seed uint64, tier, dir, replay string) error {
 			continue
 		}
 		add(kind, "valid", b)
+		if len(b) > 4096 { // a long-list message: the model's cost is quadratic in the frame size, so only a few variants
+			for k := 0; k < 6; k++ {
+				add(kind, "truncation", b[:rng.Intn(len(b))])
+			}
+			for k := 0; k < 6; k++ {
+				add(kind, "mutated", g.mutate(b))
+			}
+			continue
+		}
 		// truncation at every offset (short frames) or sampled
 		step := 1
 		if len(b) > 160 {
@@ -387,7 +396,7 @@ func runC07(seed uint64, tier, dir, replay string) error {
 	for i := 0; i < nsweep; i++ {
 		m, kind := g.anyMessage()
 		b, ok := marshalSafe(m)
-		if !ok || len(b) < 8 {
+		if !ok || len(b) < 8 || len(b) > 4096 {
 			continue
 		}
 		for _, c := range wordSweep(b, 0, maxoff, rng) {
@@ -433,7 +442,7 @@ func runC07(seed uint64, tier, dir, replay string) error {
 	}
 	// nesting as deep as a frame allows
 	for _, nb := range deepFrames(tier == "thorough") {
-		modelToo = len(nb.b) < 4000 || tier == "thorough"
+		modelToo = len(nb.b) < 4000 // the model re-slices at every level: beyond, the frame is judged on the implementation's outcome alone
 		add(nb.kind, "deep", nb.b)
 	}
 	modelToo = true
